@@ -54,7 +54,7 @@ def gen_scenario(rng, *, family='well', cyclic=False, init_env=False,
         for j in cand:
             (soft if rng.random() < p_soft else hard).append(j)
         if rng.random() < p_fail:
-            if family == 'well':
+            if family in ('well', 'echo'):
                 out = rng.choice(('raise', 'failed'))
             elif family == 'malformed':
                 out = rng.choice(MALFORMED + ('raise', 'failed'))
@@ -75,6 +75,7 @@ def gen_scenario(rng, *, family='well', cyclic=False, init_env=False,
             'variant': rng.randrange(24),
             'dur': rng.choice((0, 0, 1, 3, 10, 40, 200)),
             'shared': rng.random() < 0.3,
+            'echo_status': family == 'echo' and rng.random() < 0.5,
         })
     scn = {
         'kind': 'sched',
@@ -101,6 +102,10 @@ def gen_scenario(rng, *, family='well', cyclic=False, init_env=False,
         # configuration, no soft graph when there is no soft edge
         scn['defaults'] = True
         scn['workers'] = 10
+    if rng.random() < 0.1:
+        # a first Scheduler is built from the same graph objects and thrown
+        # away: constructing one must not change the caller's graphs
+        scn['built_twice'] = True
     if calls > 1:
         # schedule() is called again on the same Scheduler (same backend
         # object): with the environment the first call returned, or afresh
@@ -286,15 +291,22 @@ def scripted_return(scn, i, status_enum, run_tag='r'):
     out = tsk['outcome']
     var = tsk.get('variant', 0)
     upd = scripted_update(scn, i, run_tag)
+
+    def pick(*choices):
+        return choices[var % len(choices)]
+
     if out == 'ok':
+        if tsk.get('echo_status'):
+            # the task hands back (a copy of) its own entry, status included,
+            # as it found it in the environment: the status it RETURNS counts
+            upd[tsk['name']]['status'] = pick(
+                status_enum.PENDING, status_enum.WAITING, status_enum.FAILED,
+                status_enum.PENDING)
         return upd, status_enum.DONE
     if out == 'failed':
         return upd, status_enum.FAILED
     if out == 'none':
         return None
-    def pick(*choices):
-        return choices[var % len(choices)]
-
     if out == 'notpair':
         return pick(42, 'a string', [1, 2, 3], upd, 0, '', (), [])
     if out == 'triple':
@@ -302,7 +314,7 @@ def scripted_return(scn, i, status_enum, run_tag='r'):
     if out == 'badstatus':
         # not a TaskStatus at all, or a TaskStatus that is not a final one
         return upd, pick('DONE', 99, None, 2.5, status_enum.PENDING,
-                         status_enum.WAITING, 0, 3)
+                         status_enum.WAITING, 0, 3, status_enum.SKIPPED)
     if out == 'nonmapping':
         # falsy ones included: "no update" is None, nothing else
         return pick([1, 2], 7, 'update', [('k', 'v')], [], '', 0, (),
@@ -315,6 +327,10 @@ def scripted_return(scn, i, status_enum, run_tag='r'):
 
 class ProbeError(Exception):
     '''Scripted failure of a probe task.'''
+
+
+class ProbeBaseError(BaseException):
+    '''Scripted failure of a probe task, not an Exception.'''
 
 
 # --------------------------------------------------------------------------
@@ -407,7 +423,15 @@ def build_tasks(scn, mods, recorder, run_tag='r', run_no=0, state=None):
         if specs[i]['outcome'] == 'raise':
             raise ProbeError('scripted failure of %s' % specs[i]['name'])
         if specs[i]['outcome'] == 'sysexit':
-            raise SystemExit(3)
+            # exceptions that are not Exceptions
+            kind = specs[i].get('variant', 0) % 4
+            if kind == 0:
+                raise SystemExit(3)
+            if kind == 1:
+                raise KeyboardInterrupt()
+            if kind == 2:
+                raise GeneratorExit()
+            raise ProbeBaseError('scripted failure of %s' % specs[i]['name'])
         return scripted_return(scn, i, status_enum, run_tag)
 
     class ProbeTask(task_mod.Task):
@@ -545,6 +569,10 @@ def run_scenario(scn, chooser, *, max_steps=200000):
         state = {'call': 0}
         objs = build_tasks(scn, mods, recorder, state=state)
         hard, soft = build_graphs(scn, mods, objs)
+        if scn.get('built_twice'):
+            mods['scheduler'].Scheduler(
+                hard_graph=hard, soft_graph=soft,
+                backend=mods['queue'].QueueScheduling(n_workers=1))
         if scn.get('defaults') and not scn.get('init_env'):
             if any(t['soft'] for t in scn['tasks']):
                 sched = mods['scheduler'].Scheduler(hard_graph=hard,
@@ -590,8 +618,19 @@ def run_scenario(scn, chooser, *, max_steps=200000):
             got = sched.schedule(env=env, config=config)
         return got
 
-    outcome = sim.run(main)
+    def main_recording():
+        try:
+            return main()
+        finally:
+            # the instant schedule() comes back (or raises), before anybody
+            # else gets to run
+            holder['alive_at_return'] = [
+                (t.tid, t.name, t.state) for t in sim.threads[1:]
+                if t.state != 'D']
+
+    outcome = sim.run(main_recording)
     res = RunResult()
+    res.alive_at_return = holder.get('alive_at_return', [])
     res.sim = sim
     res.outcome = outcome
     res.main_exc = sim.main_exc
@@ -762,6 +801,10 @@ def oracle_c03(scn, res):
         viol.append(('no-progress', 'no-progress:steplimit',
                      {'steps': res.sim.steps, 'alive': res.alive}))
     elif kind == 'ok':
+        if res.alive_at_return:
+            viol.append(('worker-leak', 'worker-alive-when-the-call-returns',
+                         {'alive': res.alive_at_return,
+                          'main_exc': repr(res.main_exc)[:100]}))
         if res.main_exc is None and not res.returned_env:
             viol.append(('no-env-returned', 'no-env-returned', {}))
         if res.queue_state is not None and res.main_exc is None and \
@@ -864,6 +907,7 @@ def shrink_candidates(scn):
                 new['tasks'][i][key].remove(j)
                 yield new
         for field, plain in (('outcome', 'ok'), ('dur', 0), ('shared', False),
+                             ('echo_status', False),
                              ('kind', 'task'), ('variant', 0),
                              ('name', 't%d' % i)):
             if tsk.get(field) != plain:
@@ -886,6 +930,10 @@ def shrink_candidates(scn):
     if scn.get('defaults'):
         new = copy.deepcopy(scn)
         del new['defaults']
+        yield new
+    if scn.get('built_twice'):
+        new = copy.deepcopy(scn)
+        del new['built_twice']
         yield new
     if scn.get('fail_thread_start'):
         new = copy.deepcopy(scn)
@@ -923,6 +971,8 @@ def sched_facts(scn, res):
         facts['scenarios-cyclic'] = 1
     facts['workers:%d' % scn['workers']] = 1
     facts['graphs-built-via:%s' % scn.get('graph_api', 'add')] = 1
+    if scn.get('built_twice'):
+        facts['scenarios-with-a-scheduler-built-twice-from-one-graph'] = 1
     if scn.get('defaults'):
         facts['scenarios-with-default-backend-env-config'] = 1
     if scn.get('calls', 1) > 1:
